@@ -8,11 +8,12 @@ pub mod c07;
 pub mod c08;
 pub mod c09;
 pub mod c10;
+pub mod c11;
 pub mod c15;
 
 use crate::engine::Env;
 
-pub const ALL: [&str; 11] = ["C01", "C02", "C03", "C04", "C05", "C06", "C07", "C08", "C09", "C10", "C15"];
+pub const ALL: [&str; 12] = ["C01", "C02", "C03", "C04", "C05", "C06", "C07", "C08", "C09", "C10", "C11", "C15"];
 
 /// run (or, with env.register_only, just register) every sub-check of a property
 pub fn run(id: &str, env: &mut Env) -> bool {
@@ -27,6 +28,7 @@ pub fn run(id: &str, env: &mut Env) -> bool {
         "C08" => c08::run(env),
         "C09" => c09::run(env),
         "C10" => c10::run(env),
+        "C11" => c11::run(env),
         "C15" => c15::run(env),
         _ => return false,
     }
@@ -47,6 +49,7 @@ pub fn rule(id: &str) -> String {
         "C09" => "Cases (instant, offset, operation, candidate): the 10 setters and 9 clear_until_* on DateTime with any offset in +-23:59:59 (UTC time of day biased to within |offset| of midnight so that the local date differs from the UTC date; month/year ends, Feb 29 AD and BC, sub-second remainders), the date setters/clears on Date, the time setters/clears on Time; candidates min, min+1, max-1, max, max+1, min-1, the current value, 2^31, 2^32-1, typical wrong guesses, random. Oracle: local-field model (apply offset -> edit exactly that field -> remove offset); valid => Ok, all getters of the result read the edited local fields, offset unchanged, instant = local - offset; invalid => Err(OutOfRange). Target local dates within 2 days of a range end are skipped as unspecified. Non-trivial: local date != UTC date, Feb 29 involved, BC, refused candidate, candidate at max/max+1, Time wrapping under its offset.",
         "C10" => "(instant, offset) pairs: every 61st (quick) or every (thorough) offset in -86399..=86399 x 64 fixed instants (range ends +-2 days, era boundary, leap days, year ends, 4 times of day) and x 64 times of day, plus seeded random pairs with the UTC time of day biased to within |offset| of midnight. set_offset: timestamp, instant, ==, cmp, every *_since (= 0), duration_between unchanged; all 11 getters and the rendering of yyyy-MM-dd HH:mm:ss.nnnnn xxxxx equal the model's fields of instant + offset. as_offset (on offset-0 values): getters unchanged, instant moved by -offset, get_offset = offset. Same for Time modulo 24 h. Offset::from_seconds / from_hms over boundary-dense i32/u32 arguments: accepted exactly inside +-23:59:59, resolve()/resolve_hms() return what was given. Non-trivial: offset not a whole hour, local date != UTC date (month/year end, day 0 crossings), Time wrap-around, constructor arguments at the edge or one step outside.",
         "C15" => "Argument tuples for every public Result-returning constructor and setter (Date/DateTime::from_ymd, from_ymdhms, DateTime/Time::from_hms, Time::from_seconds/from_nanos, Offset::from_seconds/from_hms, the 10 DateTime setters, 4 Date setters and 6 Time setters on boundary-dense receivers with offsets): each argument from min, max, max+1, min-1, max-1, 0, 1, 2^31-1, 2^31, 2^32-1, values whose products wrap modulo 2^32, type extremes, random; half of the cases keep all but one argument valid. Oracle: Ok iff the model says valid, value equal to the model's for the unwrapped arguments, Err is OutOfRange, no panic. Metamorphic message check: when Display has the form '<name> must be in the range A..=B' and <name> is an argument of the call, the rejected value lies outside [A,B] and, over a sweep of ~45 alternative values of that argument with the others fixed, every accepted value lies inside [A,B]. Non-trivial: exactly one argument one step outside its range, an argument >= 2^31, a conditional range (month length, range-end year), a message whose range was checked.",
+        "C11" => "Cases (value of kind Date/Time/DateTime over all eras with any offset, pattern): patterns are token sequences (1..8) of fields (symbol documented for the type x width 1..=10), unquoted literals (space - / : . , _ T digits parentheses + and the non-ASCII letters e-acute and a CJK character), quoted text (any characters incl. symbol letters and doubled apostrophes) and the '' escape, built so that the documented tokenisation is unambiguous (adjacent fields differ in symbol, no two quote-bearing tokens adjacent) and verified to tokenise back; plus the product 19 symbols x widths 1..=10 x value classes (all hours, noon/midnight seconds, months, week 52/53/1 days, year signs and digit counts 1..7, offsets 0/+-hh/+-hhmm/+-hhmmss, sub-second digit groups). Oracle: reference formatter written from the three doc tables (self-tested against the repository's 403 format assertions). Unspecified renderings (yy for years <= -10, b in the noon/midnight second with a sub-second part, X..XXX for |offset| < 60 s) are skipped and counted. Non-trivial: >= 2 fields and a value in a class the table distinguishes, or any quoting, or an over-long run.",
         _ => "",
     }
     .to_string()
@@ -67,5 +70,7 @@ pub fn assumptions(id: &str) -> Vec<String> {
 
 /// model self-tests beyond the calendar (formatter vs. repository assertions, TZif golden, …)
 pub fn model_self_tests() -> Result<u64, String> {
-    Ok(0)
+    let mut n = 0;
+    n += crate::model::fmt::self_test()?;
+    Ok(n)
 }
